@@ -194,30 +194,36 @@ def digitChars (ds : List Nat) : Str := ds.map (48 + ·)
 def renderInt (n : Int) : Str :=
   if n < 0 then 45 :: digitChars (natDigits n.natAbs) else digitChars (natDigits n.natAbs)
 
+/-- exponent digits: `%+.02d` -/
+def expDigits (e : Int) : List Nat :=
+  let ed := natDigits e.natAbs
+  if ed.length < 2 then 0 :: ed else ed
+
+/-- `d₁[.d₂…dₖ]` -/
+def reprMantissa : List Nat → Str
+  | [] => []
+  | [a] => [48 + a]
+  | a :: rest => (48 + a) :: 46 :: digitChars rest
+
+/-- exponent notation `d₁[.d₂…dₖ]e±XX` with exponent `decpt - 1` -/
+def reprExpForm (digits : List Nat) (decpt : Int) : Str :=
+  reprMantissa digits ++ [101, if decpt - 1 < 0 then 45 else 43] ++ digitChars (expDigits (decpt - 1))
+
+/-- fixed notation, always with a decimal point (`Py_DTSF_ADD_DOT_0`) -/
+def reprFixedForm (digits : List Nat) (decpt : Int) : Str :=
+  if decpt ≤ 0 then [48, 46] ++ List.replicate (-decpt).toNat 48 ++ digitChars digits
+  else if decpt < (digits.length : Int) then
+    digitChars (digits.take decpt.toNat) ++ [46] ++ digitChars (digits.drop decpt.toNat)
+  else digitChars digits ++ List.replicate (decpt - (digits.length : Int)).toNat 48 ++ [46, 48]
+
+def reprBody (d : Dec) : Str :=
+  if d.decpt ≤ -4 ∨ d.decpt > 16 then reprExpForm d.digits d.decpt else reprFixedForm d.digits d.decpt
+
 /-- `float.__repr__` (`format_float_short(x, 'r', 0, Py_DTSF_ADD_DOT_0, …)` in CPython's
 `pystrtod.c`) applied to the shortest digit string `d.digits` with decimal point position `d.decpt`
 (value `0.d₁…dₖ × 10^decpt`; digit generation `_Py_dg_dtoa` mode 0 is a TRUSTED parameter):
 exponent notation iff `decpt ≤ -4` or `decpt > 16`; exponent with sign and at least two digits. -/
-def reprDouble (d : Dec) : Str :=
-  let sign : Str := if d.neg then [45] else []
-  let k : Int := d.digits.length
-  let body : Str :=
-    if d.decpt ≤ -4 ∨ d.decpt > 16 then
-      let e : Int := d.decpt - 1
-      let ed := natDigits e.natAbs
-      let ed := if ed.length < 2 then 0 :: ed else ed
-      let mant : Str := match d.digits with
-        | [] => []
-        | [a] => [48 + a]
-        | a :: rest => (48 + a) :: 46 :: digitChars rest
-      mant ++ [101, if e < 0 then 45 else 43] ++ digitChars ed
-    else if d.decpt ≤ 0 then
-      [48, 46] ++ List.replicate (-d.decpt).toNat 48 ++ digitChars d.digits
-    else if d.decpt < k then
-      digitChars (d.digits.take d.decpt.toNat) ++ [46] ++ digitChars (d.digits.drop d.decpt.toNat)
-    else
-      digitChars d.digits ++ List.replicate (d.decpt - k).toNat 48 ++ [46, 48]
-  sign ++ body
+def reprDouble (d : Dec) : Str := (if d.neg then [45] else []) ++ reprBody d
 
 mutual
 /-- `json.dumps(v, separators=(',', ':'))` with the string encoder `esc` -/
